@@ -32,7 +32,7 @@ ASSUMPTIONS = [
 ]
 
 F = refws.enc_frame
-KINDS = ('reset', 'pipe', 'timeout', 'runtime', 'reset-braces')
+KINDS = ('reset', 'pipe', 'timeout', 'runtime', 'reset-braces', 'eintr-partial', 'eagain-partial')
 
 
 def scenarios():
